@@ -19,6 +19,7 @@ No verdict is computed here: only projection of results to JSON.
 Literals are [v, b] with v a positive integer (the driver maps integers to names and back).
 """
 import json
+import os
 import random
 import signal
 import sys
@@ -28,12 +29,16 @@ from prover import sat
 
 from harness.core import digest
 
-LIMIT_LONG = 3.0      # seconds per call; >= 1000 x the median (about 10-100 us .. 1 ms)
-LIMIT_SHORT = 0.5     # after MANY_TIMEOUTS time-outs in this process (keeps a defective tree affordable;
+LIMIT_LONG = 3.0      # seconds per call; >= 1000 x the median (about 10 us .. 1 ms per call)
+LIMIT_SHORT = 0.3     # after MANY_TIMEOUTS alarm time-outs in this process (keeps a defective tree affordable;
 MANY_TIMEOUTS = 4     #  a time-out is a violation only with a model-level explanation, see C15_SatTrace)
 
 
 class Alarm(BaseException):
+    pass
+
+
+class StepBudget(BaseException):
     pass
 
 
@@ -43,26 +48,68 @@ def _on_alarm(signum, frame):
 
 signal.signal(signal.SIGALRM, _on_alarm)
 _timeouts = 0
+_steps = [0, 0]     # [calls of solve_cnf's inner function `backtrack` in this call, budget]
 
 
-def timed(fun, *args, limit=None):
-    """-> (outcome, value, limit): outcome 'ok' | 'timeout' | 'raised:<Exception class>'"""
+def _profile(frame, event, arg):
+    # run-time observation only (no source change): count the conflicts of the current solve_cnf call
+    if event == "call" and frame.f_code.co_name == "backtrack" and frame.f_code.co_filename.endswith("sat.py"):
+        _steps[0] += 1
+        if _steps[0] > _steps[1]:
+            raise StepBudget()
+
+
+def step_budget(nv):
+    """A terminating run over n variables learns at most 3^n clauses (one per conflict).  The budget is more
+    than 10 x that bound for n <= 3 and far above anything a terminating run needs for n <= 5; for more variables
+    the wall-clock alarm is the effective bound."""
+    return 300 if nv <= 3 else 1000 if nv <= 5 else 10 ** 9
+
+
+def timed(fun, *args, limit=None, budget=None):
+    """-> (outcome, value, limit): outcome 'ok' | 'timeout' | 'raised:<Exception class>'.
+    `timeout` = the call did not return within `limit` seconds or within `budget` conflicts."""
     global _timeouts
     if limit is None:
         limit = LIMIT_LONG if _timeouts < MANY_TIMEOUTS else LIMIT_SHORT
+    _steps[0], _steps[1] = 0, budget or 10 ** 9
     signal.setitimer(signal.ITIMER_REAL, limit)
+    if budget:
+        sys.setprofile(_profile)
     try:
         res = fun(*args)
+        sys.setprofile(None)
         signal.setitimer(signal.ITIMER_REAL, 0)
         return "ok", res, limit
     except Alarm:
         _timeouts += 1
         return "timeout", None, limit
+    except StepBudget:
+        return "timeout", None, 0
     except Exception as e:
+        sys.setprofile(None)
         signal.setitimer(signal.ITIMER_REAL, 0)
         return "raised:" + type(e).__name__, None, limit
     finally:
+        sys.setprofile(None)
         signal.setitimer(signal.ITIMER_REAL, 0)
+
+
+_dedup = []
+
+
+def dedup_probe():
+    """Does solve_cnf return on [[~x, ~x]]?  (C15_DEDUP in the environment = result of the `probe` mode.)"""
+    if not _dedup:
+        v = os.environ.get("C15_DEDUP")
+        if v in ("0", "1"):
+            _dedup.append(v == "1")
+        else:
+            global _timeouts
+            o, _, _ = timed(sat.solve_cnf, [[("x", False), ("x", False)]], limit=3.0)
+            _timeouts = 0
+            _dedup.append(o == "ok")
+    return _dedup[0]
 
 
 DEFAULT_NAMES = ["x", "y", "z", "w"] + ["v%d" % i for i in range(5, 80)]
@@ -86,10 +133,20 @@ def solve_event(cnf, names, src, vid=0, limit=None):
     """cnf: list of clauses of [v, b] (v int >= 1); names[v-1] is the name given to the solver."""
     inp = [[(names[v - 1], bool(b)) for v, b in clause] for clause in cnf]
     back = {names[i]: i + 1 for i in range(len(names))}
-    outcome, res, lim = timed(sat.solve_cnf, inp, limit=limit)
-    ev = {"kind": "solve", "src": src, "vid": vid, "cnf": cnf, "nv": len({v for c in cnf for v, _ in c}),
+    nv = len({v for c in cnf for v, _ in c})
+    dd = dedup_probe()
+    # iteration order of the set `variables` that solve_cnf builds (same construction, same process, same hashes):
+    # a projection of the input, it lets the model decide in the order the code does
+    variables = set()
+    for clause in inp:
+        for name, _ in clause:
+            variables.add(name)
+    order = [back[name] for name in variables]
+    budget = step_budget(nv)
+    outcome, res, lim = timed(sat.solve_cnf, inp, limit=limit, budget=budget)
+    ev = {"kind": "solve", "src": src, "vid": vid, "cnf": cnf, "nv": nv, "budget": min(budget, 10 ** 6), "conflicts": _steps[0],
           "names": names[:max([v for c in cnf for v, _ in c] + [0])], "limit": lim,
-          "assignment": [], "proofs": [], "ret": "none"}
+          "assignment": [], "proofs": [], "ret": "none", "dedup": dd, "order": order}
     if outcome == "ok":
         # project the returned pair; anything that is not the documented shape is recorded as such
         try:
@@ -150,6 +207,14 @@ def solve(vec_path, out_path, src, shuffle_seed=None):
 
 
 def random_cnf(rnd, maxvars=12):
+    mode = rnd.random()
+    if mode < 0.35:
+        # near the satisfiability threshold, fixed width: runs with several conflicts, back-jumps, reused learned clauses
+        nv = min(maxvars, rnd.choice([3, 4, 5, 6, 7, 8, 9, 10, 11, 12]))
+        k = 2 if nv <= 3 else 3
+        ratio = rnd.uniform(0.9, 1.6) if k == 2 else rnd.uniform(3.5, 5.5)
+        nc = min(60, int(round(ratio * nv)))
+        return [[[v, rnd.random() < 0.5] for v in rnd.sample(range(1, nv + 1), k)] for _ in range(nc)]
     nv = rnd.choice([1, 2, 3, 3, 4, 4, 5, 5, 6, 6, 7, 8, 9, 10, 11, 12])
     nv = min(nv, maxvars)
     mode = rnd.random()
@@ -160,17 +225,17 @@ def random_cnf(rnd, maxvars=12):
     cnf = []
     for _ in range(nc):
         k = rnd.choice([1, 2, 2, 2, 3, 3, 3, 3, 4, 5])
-        if mode < 0.72:        # clean: distinct variables in a clause
+        if mode < 0.80:        # clean: distinct variables in a clause
             vs = rnd.sample(range(1, nv + 1), min(k, nv))
             cl = [[v, rnd.random() < 0.5] for v in vs]
         else:                  # with replacement: duplicated and complementary literals occur
             cl = [[rnd.randint(1, nv), rnd.random() < 0.5] for _ in range(k)]
         cnf.append(cl)
-    if 0.72 <= mode < 0.80 and cnf:     # an explicit duplicated literal
+    if 0.80 <= mode < 0.86 and cnf:     # an explicit duplicated literal
         c = rnd.choice(cnf)
         if c:
             c.insert(rnd.randrange(len(c) + 1), list(rnd.choice(c)))
-    if 0.80 <= mode < 0.86 and cnf:     # an explicit tautological pair
+    if 0.86 <= mode < 0.91 and cnf:     # an explicit tautological pair
         c = rnd.choice(cnf)
         if c:
             l = rnd.choice(c)
@@ -395,7 +460,6 @@ def replay_solve(in_path, out_path):
         ev["names"] = e["names"]
         ev["key"] = e["key"]
         log.write(ev)
-        log_tid = e.get("tid")
     log.close()
 
 
